@@ -2,7 +2,11 @@
 
 Passes under test: convert-linalg-to-kernel, convert-kernel-to-linalg (LowerLinalgBody, LowerRescale), dispatch-kernels.
 
-Committed state: the model of `check_kernel_equivalence` is the code WITH fix F05
+Committed state: the model is the code WITH fixes F05 (already in /repo), FC18a (fixes/FC18a-lower-linalg-body-canonical-guard.diff:
+LowerLinalgBody only fires on canonically wired single-kernel bodies) and FC18c (fixes/FC18c-lower-rescale-golden-model.diff:
+LowerRescale follows the golden model, all input/result widths, double rounding, per-channel rescales left alone).
+C18_LOWER=upstream / C18_RESCALE=upstream select the models of the unpatched patterns (diagnostics only).
+The model of `check_kernel_equivalence` is the code WITH fix F05
 (fixes/F05-kernel-structural-match.diff) applied to $SNAX_REPO. Set C18_MODEL=upstream to compare against the
 unpatched matcher (diagnostics only: D14 then shows up as oracle failures on the real code).
 
@@ -21,6 +25,11 @@ import compat  # noqa: F401
 from framework import Prop
 
 FIXED_MODEL = os.environ.get("C18_MODEL", "fixed") != "upstream"
+# fixes/FC18c-lower-rescale-golden-model.diff and fixes/FC18a-lower-linalg-body-canonical-guard.diff: the committed model
+# is the FIXED code; C18_RESCALE=upstream / C18_LOWER=upstream compare against the unpatched patterns (diagnostics only)
+FIXED_RESCALE = os.environ.get("C18_RESCALE", "fixed") != "upstream"
+FIXED_LOWER = os.environ.get("C18_LOWER", "fixed") != "upstream"
+CMPI_PREDS = ["eq", "ne", "slt", "sle", "sgt", "sge", "ult", "ule", "ugt", "uge"]
 WIDTHS = [8, 16, 32, 64]
 BIN = ["addi", "muli", "subi"]
 KERNEL_NOPS = {"mul": 2, "add": 2, "mac": 2, "qmac": 4, "rescale": 1}
@@ -84,6 +93,10 @@ def arith_line(kind, args, w, res, ws, outer):
         return f"  {res} = arith.{kind} {names[0]}, {names[1]} : i{w}"
     if kind in ("extsi", "trunci"):
         return f"  {res} = arith.{kind} {names[0]} : i{ref_width(ws, args[0])} to i{w}"
+    if isinstance(kind, list) and kind[0] == "cmpi":
+        return f"  {res} = arith.cmpi {CMPI_PREDS[kind[1]]}, {names[0]}, {names[1]} : i{ref_width(ws, args[0])}"
+    if kind == "select":
+        return f"  {res} = arith.select {names[0]}, {names[1]}, {names[2]} : i{w}"
     if isinstance(kind, list) and kind[0] == "const":
         return f"  {res} = arith.constant {kind[1]} : i{w}"
     if isinstance(kind, list) and kind[0] == "other":
@@ -105,7 +118,7 @@ def mvalue_widths(mb):
     return list(mb["args"]) + [op[4] if is_kop(op) else op[2] for op in mb["ops"]]
 
 
-def render_mbody_case(mb):
+def render_mbody_case(mb, accs=(), dynamic=False, library_call=None):
     """a body mixing kernel ops ["k", kernel, operands, opTypes, resWidth] and arith ops [kind, operands, width]"""
     outer = {}
     ws = mvalue_widths(mb)
@@ -119,7 +132,7 @@ def render_mbody_case(mb):
             lines.append(arith_line(op[0], op[1], op[2], res, ws, outer))
     ret = mb["ret"]
     y = "  linalg.yield " + ", ".join(_ref_name(r, outer) for r in ret) + " : " + ", ".join(f"i{ref_width(ws, r)}" for r in ret)
-    return render_module(mb["args"], lines, y, outer)
+    return render_module(mb["args"], lines, y, outer, accs, dynamic, library_call)
 
 
 def render_module(args, body_lines, yield_line, outer, accs=(), dynamic=False, library_call=None):
@@ -185,7 +198,7 @@ def render_rescale_case(case):
 
 # ------------------------------------------------------------------------------------------------
 # real IR -> model JSON, and the independent interpreter (oracle semantics)
-ARITH_KINDS = {"arith.addi": "addi", "arith.muli": "muli", "arith.subi": "subi", "arith.extsi": "extsi",
+ARITH_KINDS = {"arith.select": "select", "arith.addi": "addi", "arith.muli": "muli", "arith.subi": "subi", "arith.extsi": "extsi",
                "arith.trunci": "trunci", "arith.shrsi": "shrsi", "arith.minsi": "minsi", "arith.maxsi": "maxsi"}
 KERNEL_NAMES = {"kernel.mul": "mul", "kernel.add": "add", "kernel.mac": "mac", "kernel.qmac": "qmac",
                 "kernel.rescale": "rescale"}
@@ -255,6 +268,8 @@ class BlockView:
             w = _width(op.results[0].type)
             if op.name in ARITH_KINDS:
                 kind = ARITH_KINDS[op.name]
+            elif isinstance(op, arith.CmpiOp):
+                kind = ["cmpi", op.predicate.value.data]
             elif isinstance(op, arith.ConstantOp):
                 kind = ["const", op.value.value.data]
             elif op.name.startswith("kernel."):
@@ -283,6 +298,8 @@ class BlockView:
         w = _width(op.results[0].type)
         if op.name in ARITH_KINDS:
             kind = ARITH_KINDS[op.name]
+        elif isinstance(op, arith.CmpiOp):
+            kind = ["cmpi", op.predicate.value.data]
         elif isinstance(op, arith.ConstantOp):
             kind = ["const", op.value.value.data]
         else:
@@ -366,6 +383,17 @@ def interpret(view, ins):
                 r = a if sgn(rw, a) < sgn(rw, b) else b
             else:
                 r = a if sgn(rw, a) > sgn(rw, b) else b
+        elif name == "arith.cmpi":
+            (wa, a), (wb, b) = vals
+            if wa != wb or rw != 1:
+                return None
+            sa, sb = sgn(wa, a), sgn(wa, b)
+            r = int([a == b, a != b, sa < sb, sa <= sb, sa > sb, sa >= sb, a < b, a <= b, a > b, a >= b][op.predicate.value.data])
+        elif name == "arith.select":
+            (wc, c), (wa, a), (wb, b) = vals
+            if wc != 1 or wa != rw or wb != rw:
+                return None
+            r = a if c == 1 else b
         elif name == "arith.extsi":
             (wa, a), = vals
             if not wa < rw:
@@ -558,6 +586,13 @@ def gen_random_body(rng, max_ops=4):
                 continue
         a = rng.randrange(len(ws))
         same = [i for i in range(len(ws)) if ws[i] == ws[a]]
+        if rng.random() < 0.08 and ws[a] != 1:
+            b = rng.choice(same)
+            ops.append([["cmpi", rng.randrange(10)], [["v", a], ["v", b]], 1])
+            ws.append(1)
+            ops.append(["select", [["v", len(ws) - 1], ["v", a], ["v", b]], ws[a]])
+            ws.append(ws[a])
+            continue
         ops.append([rng.choice(BIN), [["v", a], ["v", rng.choice(same)]], ws[a]])
         ws.append(ws[a])
     good = [i for i in range(len(ws)) if ws[i] == args[-1]]
@@ -618,6 +653,12 @@ def gen_kbody(rng):
     r = rng.random()
     if r < 0.45:
         return kb                       # canonical wiring
+    if r < 0.6:                         # permute two operands of the same type (changes the function only for qmac zero points / operands)
+        pairs = [(i, j) for i in range(n - 1) for j in range(i + 1, n - 1) if tys[i] == tys[j]]
+        if pairs:
+            i, j = rng.choice(pairs)
+            kb["operands"][i], kb["operands"][j] = kb["operands"][j], kb["operands"][i]
+        return kb
     if r < 0.8:                         # rewire an operand to another block argument of the same width
         i = rng.randrange(n - 1)
         cands = [j for j in range(n) if tys[j] == tys[i] and j != i]
@@ -719,17 +760,32 @@ def gen_rescale(rng):
          "max_int": hi, "min_int": lo, "double_round": rng.random() < 0.25}
     if rng.random() < 0.03:
         p["multiplier"] = []
+    # input / result types: mostly the accelerator's (i32) -> i8, also rescale-up (i8) -> i32 and every other combination
+    r = rng.random()
+    args = [32, 8] if r < 0.6 else [8, 32] if r < 0.7 else [rng.choice([8, 16, 32]), rng.choice([8, 16, 32, 32, 64])]
+    wi, wr = args
+    if wr != 8 and rng.random() < 0.7:   # a clamp range that uses the wider result type
+        lo_r, hi_r = -(1 << (min(wr, 32) - 1)), (1 << (min(wr, 32) - 1)) - 1
+        p["min_int"], p["max_int"] = sorted([rng.choice([lo_r, lo_r, -1000, rng.randint(lo_r, 0)]), rng.choice([hi_r, hi_r, 900, rng.randint(0, hi_r)])])
+    if nch > 1 and p["multiplier"] and rng.random() < 0.4:   # per-channel arrays that happen to be uniform
+        p["multiplier"] = [p["multiplier"][0]] * len(p["multiplier"])
+        p["shift"] = [p["shift"][0]] * len(p["shift"])
+    lo_i, hi_i = -(1 << (wi - 1)), (1 << (wi - 1)) - 1
     xs = []
     for _ in range(N_INPUTS):
         r = rng.random()
         if r < 0.3:
-            xs.append(rng.choice([0, 1, -1, 2**31 - 1, -2**31, 32768, -8737248, 12345]))
+            xs.append(rng.choice([0, 1, -1, hi_i, lo_i, 32768, -8737248, 12345, 100, -100]))
         elif r < 0.7:
             xs.append(rng.randint(-10**7, 10**7))
         else:
-            xs.append(rng.randint(-2**31, 2**31 - 1))
-    return {"kind": "rescale", "params": p, "args": [32, 8] if rng.random() < 0.95 else [32, rng.choice([8, 32])],
-            "ch": rng.randrange(nch) if rng.random() < 0.5 else 0, "xs": xs}
+            xs.append(rng.randint(lo_i, hi_i))
+    xs = [max(lo_i, min(hi_i, x)) for x in xs]
+    return {"kind": "rescale", "params": p, "args": args, "ch": rng.randrange(nch) if rng.random() < 0.5 else 0, "xs": xs}
+
+
+def uniform(l):
+    return len(set(l)) == 1
 
 
 # ------------------------------------------------------------------------------------------------
@@ -756,7 +812,8 @@ def render_tosa_case(c):
     return (TOSA_SRC.replace("@USER@", user).replace("@EXTRA@", extra).replace("@TY@", ty)
             .replace("@ZI@", str(c["input_zp"])).replace("@ZO@", str(c["output_zp"]))
             .replace("@MU@", str(c["multiplier"][0])).replace("@SH@", str(c["shift"][0]))
-            .replace("@RM@", "DOUBLE_ROUND" if c["double_round"] else "SINGLE_ROUND"))
+            .replace("@RM@", "DOUBLE_ROUND" if c["double_round"] else "SINGLE_ROUND")
+            .replace("4x8x", "?x8x" if c.get("dynamic") else "4x8x"))
 
 
 def signed_range(w):
@@ -788,7 +845,8 @@ def gen_tosa(rng):
     for _ in range(6):
         xs.append(rng.choice([rng.randint(-2**31, 2**31 - 1), rng.randint(-10**6, 10**6), 2**31 - 1, -2**31]))
     return {"kind": "tosa", "out": out, "users": 1 if rng.random() < 0.92 else 2, "clamp": clamp, "input_zp": zi,
-            "output_zp": zo, "multiplier": [m], "shift": [s], "double_round": rng.random() < 0.15, "xs": xs}
+            "output_zp": zo, "multiplier": [m], "shift": [s], "double_round": rng.random() < 0.15, "xs": xs,
+            "dynamic": rng.random() < 0.15}
 
 
 # ------------------------------------------------------------------------------------------------
@@ -849,7 +907,8 @@ def gen_dispatch(rng):
     kb = {"args": tys, "kernel": k, "operands": [["v", i] for i in range(n - 1)], "opTypes": tys[:-1],
           "resWidth": tys[-1], "ret": [["v", n]]}
     return {"kind": "dispatch", "kbody": kb, "accs": accs, "dynamic": rng.random() < 0.3,
-            "library_call": "preset" if rng.random() < 0.08 else None, "fused": rng.random() < 0.08}
+            "library_call": "preset" if rng.random() < 0.08 else None, "fused": rng.random() < 0.08,
+            "arith_first": rng.random() < 0.06}
 
 
 class C18(Prop):
@@ -872,7 +931,8 @@ class C18(Prop):
         "bodies: one block, signless integer types i8/i16/i32/i64, ops with one result, terminated by linalg.yield; "
         "operands defined outside the block are arith.constant",
         "rescale: kernel.rescale : (i32) -> i8 inside a linalg.generic with block arguments (input, output element)",
-        "committed files expect fixes/F05-kernel-structural-match.diff applied to $SNAX_REPO",
+        "committed files expect F05 (in /repo), fixes/FC18a-lower-linalg-body-canonical-guard.diff and "
+        "fixes/FC18c-lower-rescale-golden-model.diff applied to $SNAX_REPO",
     ]
     rule = ("recognize: canonical bodies of mul/add/mac/qmac in all typed width combinations with random commutative swaps, "
             "single mutations of them (rewire, swap, kind, yield, order, constant, extra op, width) and random well-typed bodies "
@@ -906,6 +966,8 @@ class C18(Prop):
             yield gen_rescale(rng)
         for _ in range(150 if q else 2500):
             yield gen_tosa(rng)
+        for _ in range(10 if q else 100):    # a kernel.rescale whose parent is not a linalg.generic is not lowered
+            yield dict(gen_rescale(rng), kind="rescale_nolinalg")
         for i in range(len(declared_kernels())):       # exhaustive in both tiers: every declaration x kind x type grid
             for kind in KERNEL_KINDS:
                 yield {"kind": "same_kernel", "decl": i, "kernel": kind}
@@ -935,6 +997,8 @@ class C18(Prop):
             return self.impl_rescale(case)
         if k == "tosa":
             return self.impl_tosa(case)
+        if k == "rescale_nolinalg":
+            return self.impl_rescale_nolinalg(case)
         if k == "same_kernel":
             return self.impl_same_kernel(case)
         if k == "dispatch":
@@ -993,8 +1057,8 @@ class C18(Prop):
             return {"invalid_input": "ill-typed kernel op: " + type(e).__name__}
         oview = BlockView(find_generic(omod).body.block)
         after = [interpret(oview, i) for i in ins]
-        return {"kbody": kb, "ins": ins[:N_CORR], "kvals": before[:N_CORR], "body": oview.body_json(),
-                "vals": after[:N_CORR], "_before": before, "_after": after, "_ins": ins}
+        return {"kbody": kb, "ins": ins[:N_CORR], "kvals": before[:N_CORR], "out": oview.mbody_json(),
+                "fired": oview.kernel_op() is None, "vals": after[:N_CORR], "_before": before, "_after": after, "_ins": ins}
 
     def impl_fused(self, case):
         import snaxrun
@@ -1018,20 +1082,24 @@ class C18(Prop):
     def impl_rescale(self, case):
         import numpy as np
         import snaxrun
+        from snaxc.dialects.kernel import RescaleOp
         src = render_rescale_case(case)
         mod, view = self._load(src)
         if mod is None:
             return view
         out = snaxrun.run_passes(src, "convert-kernel-to-linalg")
         omod = snaxrun.parse(out)
+        if any(isinstance(op, RescaleOp) for op in omod.walk()):
+            return {"unchanged": snaxrun.text(omod) == snaxrun.text(mod)}
         oview = BlockView(find_generic(omod).body.block)
         p = case["params"]
+        wi, wr = case["args"]
         vals = []
         golden = golden_model()
         ch = case["ch"]
         for x in case["xs"]:
-            r = interpret(oview, [[case["args"][0], x & 0xFFFFFFFF], [case["args"][1], 0]])
-            e = r[0][1] if r is not None and r[0][0] == 8 else None
+            r = interpret(oview, [[wi, x & ((1 << wi) - 1)], [wr, 0]])
+            e = r[0] if r is not None and len(r) == 1 else None
             g = None
             if ch < len(p["shift"]) and ch < len(p["multiplier"]) and 1 <= p["shift"][ch] <= 63:
                 gv = golden(np.array([x], dtype=np.int64), p["input_zp"], p["output_zp"], p["shift"][ch], p["max_int"],
@@ -1039,6 +1107,19 @@ class C18(Prop):
                 g = int(gv[0]) & 0xFFFFFFFF
             vals.append([e, g])
         return {"body": oview.body_json(), "vals": vals}
+
+    def impl_rescale_nolinalg(self, case):
+        import snaxrun
+        body = render_rescale_case(case).split("\n")
+        line = [l for l in body if "kernel.rescale" in l][0].replace("%v0", "%x").replace("%v2", "%r")
+        wi, wr = case["args"]
+        src = f'%x = "test.op"() : () -> i{wi}\n{line}\n"test.op"(%r) : (i{wr}) -> ()\n'
+        try:
+            mod = parse_checked(src)
+        except Exception as e:
+            return {"invalid_input": type(e).__name__}
+        omod = snaxrun.parse(snaxrun.run_passes(src, "convert-kernel-to-linalg"))
+        return {"unchanged": snaxrun.text(omod) == snaxrun.text(mod)}
 
     def impl_tosa(self, case):
         import numpy as np
@@ -1095,7 +1176,15 @@ class C18(Prop):
         import snaxrun
         from xdsl.dialects import linalg
         kb = case["kbody"]
-        src = render_kbody_case(kb, case["accs"], case["dynamic"], case["library_call"], case["fused"])
+        if case.get("arith_first"):   # the first op of the body is not a kernel op: the pattern returns
+            n = len(kb["args"])
+            sh = lambda r: ["v", r[1] + 1] if r[0] == "v" and r[1] >= n else r
+            mb = {"args": kb["args"], "ops": [["addi", [["v", n - 1], ["v", n - 1]], kb["args"][-1]],
+                                              ["k", kb["kernel"], kb["operands"], kb["opTypes"], kb["resWidth"]]],
+                  "ret": [sh(r) for r in kb["ret"]]}
+            src = render_mbody_case(mb, case["accs"], case["dynamic"], case["library_call"])
+        else:
+            src = render_kbody_case(kb, case["accs"], case["dynamic"], case["library_call"], case["fused"])
         mod, view = self._load(src)
         if mod is None:
             return view
@@ -1111,7 +1200,7 @@ class C18(Prop):
     def requests(self, case, impl_out):
         if "raised" in impl_out or "invalid_input" in impl_out:
             if case["kind"] == "rescale":
-                return [{"fn": "c18.rescale_body", "args": {"params": case["params"], "args": case["args"]}}]
+                return [{"fn": "c18.rescale_body", "args": {"fixed": FIXED_RESCALE, "params": case["params"], "args": case["args"]}}]
             if case["kind"] == "dispatch" and "raised" in impl_out:
                 return self._dispatch_req(case)
             return []
@@ -1120,22 +1209,26 @@ class C18(Prop):
             return [{"fn": "c18.recognize", "args": {"fixed": FIXED_MODEL, "body": impl_out["body"]}},
                     {"fn": "c18.eval", "args": {"body": impl_out["body"], "ins": impl_out["ins"]}}]
         if k == "expand":
-            return [{"fn": "c18.expand", "args": {"kbody": impl_out["kbody"]}},
-                    {"fn": "c18.keval", "args": {"kbody": impl_out["kbody"], "ins": impl_out["ins"]}},
-                    {"fn": "c18.eval", "args": {"body": impl_out["body"], "ins": impl_out["ins"]}}]
+            kb = impl_out["kbody"]
+            single = {"args": kb["args"], "ops": [["k", kb["kernel"], kb["operands"], kb["opTypes"], kb["resWidth"]]], "ret": kb["ret"]}
+            return [{"fn": "c18.lower", "args": {"mbody": single, "fixed": FIXED_LOWER}},
+                    {"fn": "c18.keval", "args": {"kbody": kb, "ins": impl_out["ins"]}},
+                    {"fn": "c18.meval", "args": {"mbody": impl_out["out"], "ins": impl_out["ins"]}}]
         if k == "fused":
-            return [{"fn": "c18.lower", "args": {"mbody": impl_out["mbody"]}},
+            return [{"fn": "c18.lower", "args": {"mbody": impl_out["mbody"], "fixed": FIXED_LOWER}},
                     {"fn": "c18.meval", "args": {"mbody": impl_out["mbody"], "ins": impl_out["ins"]}}]
         if k == "rescale":
-            return [{"fn": "c18.rescale_body", "args": {"params": case["params"], "args": case["args"]}},
-                    {"fn": "c18.rescale_eval", "args": {"params": case["params"], "ch": case["ch"], "xs": case["xs"]}}]
+            return [{"fn": "c18.rescale_body", "args": {"fixed": FIXED_RESCALE, "params": case["params"], "args": case["args"]}},
+                    {"fn": "c18.rescale_eval", "args": {"fixed": FIXED_RESCALE, "params": case["params"], "ch": case["ch"],
+                                                        "wi": case["args"][0], "wr": case["args"][1], "xs": case["xs"]}}]
         if k == "tosa":
             reqs = [{"fn": "c18.tosa", "args": {"out": case["out"], "users": case["users"], "clamp": case["clamp"],
                                                 "input_zp": case["input_zp"], "output_zp": case["output_zp"],
                                                 "multiplier": case["multiplier"], "shift": case["shift"],
                                                 "double_round": case["double_round"]}}]
             if impl_out.get("kernel") is not None:   # the expansion of the kernel the real pass produced
-                reqs.append({"fn": "c18.rescale_eval", "args": {"params": impl_out["kernel"]["params"], "ch": 0, "xs": case["xs"]}})
+                reqs.append({"fn": "c18.rescale_eval", "args": {"fixed": FIXED_RESCALE, "params": impl_out["kernel"]["params"], "ch": 0,
+                                                                "wi": 32, "wr": impl_out["kernel"]["res"], "xs": case["xs"]}})
             return reqs
         if k == "same_kernel":
             sup = impl_out["supported"]
@@ -1170,8 +1263,8 @@ class C18(Prop):
             return {"body": impl_out["body"], "ins": impl_out["ins"], "vals": answers[1]["ok"], "kform": kf,
                     "unchanged": kf is None}
         if k == "expand":
-            return {"kbody": impl_out["kbody"], "ins": impl_out["ins"], "kvals": answers[1]["ok"], "body": answers[0]["ok"],
-                    "vals": answers[2]["ok"]}
+            return {"kbody": impl_out["kbody"], "ins": impl_out["ins"], "kvals": answers[1]["ok"], "out": answers[0]["ok"]["out"],
+                    "fired": answers[0]["ok"]["fired"], "vals": answers[2]["ok"]}
         if k == "fused":
             r = answers[0]["ok"]
             return {"mbody": impl_out["mbody"], "ins": impl_out["ins"], "vals": answers[1]["ok"], "out": r["out"],
@@ -1180,18 +1273,24 @@ class C18(Prop):
             b = answers[0]["ok"]
             if isinstance(b, dict) and "raised" in b:
                 return {"raised": b["raised"]}
+            if isinstance(b, dict) and "unchanged" in b:
+                return {"unchanged": True}
+            ew = case["args"][1] if FIXED_RESCALE else 8
             vals = []
             for (e, s) in answers[1]["ok"]:
-                vals.append([e, s])
+                vals.append([[ew, e] if e is not None else None, s])
             # the golden model is only called for shifts 1..63 and an existing channel: the model's spec is `none` exactly there
             return {"body": b, "vals": vals}
+        if k == "rescale_nolinalg":
+            return {"unchanged": True}   # LowerRescale's first guard; the model of the pattern starts inside a linalg.generic
         if k == "tosa":
             r = answers[0]["ok"]
             if r is None:
                 return {"kernel": None, "unchanged": True}
             vals = None
             if len(answers) > 1:
-                vals = [[8, e] if e is not None else None for (e, _) in answers[1]["ok"]]
+                ew = impl_out["kernel"]["res"] if FIXED_RESCALE else 8
+                vals = [[ew, e] if e is not None else None for (e, _) in answers[1]["ok"]]
             return {"kernel": r, "leftover_tosa_ops": False, "vals": vals}
         if k == "same_kernel":
             return {"owner": impl_out["owner"], "supported": impl_out["supported"], "n": impl_out["n"],
@@ -1200,7 +1299,7 @@ class C18(Prop):
             r = answers[0]["ok"]
             if isinstance(r, dict):
                 return {"raised": r["raised"]}
-            if case["library_call"] or case["fused"]:
+            if case["library_call"] or case["fused"] or case.get("arith_first"):
                 r = case["library_call"]     # already dispatched / fused body: the pattern returns before the search
             return {"library_call": r, "rest_unchanged": True}
 
@@ -1248,7 +1347,7 @@ class C18(Prop):
             canonical = (kb["operands"] == [["v", i] for i in range(n - 1)] and tys == kb["args"] and kb["ret"] == [["v", n]])
             for i, b, a in zip(impl_out["_ins"], impl_out["_before"], impl_out["_after"]):
                 if b is not None and a != b:
-                    return [{"what": f"kernel form {kb} computes {b} on inputs {i}, its expansion {impl_out['body']} computes {a}",
+                    return [{"what": f"kernel form {kb} computes {b} on inputs {i}, after convert-kernel-to-linalg it is {impl_out['out']} and computes {a}",
                              "finding": None if canonical else "DC18a"}]
             return []
         if k == "fused":
@@ -1260,6 +1359,8 @@ class C18(Prop):
                     return [{"what": f"body {mb} computes {b} on inputs {i}; after convert-kernel-to-linalg it is "
                                      f"{impl_out['out']} and computes {a}", "finding": "DC18a" if single else None}]
             return []
+        if k == "rescale_nolinalg":
+            return [] if impl_out["unchanged"] else [{"what": "a kernel.rescale outside a linalg.generic was rewritten", "finding": None}]
         if k == "same_kernel":
             kind, template = impl_out["supported"]
             want = [template] if kind == case["kernel"] else []
@@ -1319,46 +1420,59 @@ class C18(Prop):
             return out
         if k == "rescale":
             p = case["params"]
-            if case["args"] != [32, 8]:
-                body = impl_out["body"]
-                yw = ref_width(value_widths(body), body["ret"][0])
-                if yw != case["args"][1]:
-                    return [{"what": f"kernel.rescale (i{case['args'][0]}) -> i{case['args'][1]} expands to a body that yields "
-                                     f"i{yw} (hard-coded truncation to i8)", "finding": "DC18c"}]
-                return []
+            wi, wr = case["args"]
             ch = case["ch"]
+            if "unchanged" in impl_out:
+                # leaving the kernel op in place is always safe; it is only expected for parameters a scalar body cannot express
+                out = []
+                if not impl_out["unchanged"]:
+                    out.append({"what": "kernel.rescale was not lowered but the module changed", "finding": None})
+                if p["shift"] and p["multiplier"] and uniform(p["shift"]) and uniform(p["multiplier"]) and wi < 64:
+                    out.append({"what": f"kernel.rescale (i{wi}) -> i{wr} with one shift/multiplier for all channels was not lowered",
+                                "finding": None})
+                return out
             out = []
             seen = set()
+            body = impl_out["body"]
+            yw = ref_width(value_widths(body), body["ret"][0])
+            if yw != wr:
+                seen.add("DC18c")
+                out.append({"what": f"kernel.rescale (i{wi}) -> i{wr} expands to a body that yields i{yw} (hard-coded truncation to i8)",
+                            "finding": "DC18c"})
+            lo_r, hi_r = -(1 << (min(wr, 32) - 1)), (1 << (min(wr, 32) - 1)) - 1
             for x, (e, g) in zip(case["xs"], impl_out["vals"]):
                 if g is None or e is None:
                     continue   # shift outside 1..63 (golden model undefined / shrsi poison)
-                if p["min_int"] > p["max_int"] or not (-128 <= p["min_int"] and p["max_int"] <= 127):
-                    continue   # clamp range outside the i8 result or empty
+                if p["min_int"] > p["max_int"] or not (lo_r <= p["min_int"] and p["max_int"] <= hi_r):
+                    continue   # clamp range outside the result type or empty
                 if not (-2**31 <= p["input_zp"] < 2**31 and -2**31 <= p["output_zp"] < 2**31):
                     continue
-                if (g & 0xFF) == e:
+                if sgn(e[0], e[1]) == sgn(32, g):
                     continue
                 s, m = p["shift"][ch], p["multiplier"][ch]
+                d = x - p["input_zp"]
                 if p["double_round"]:
                     tag = "D20"
                 elif ch != 0 and (s, m) != (p["shift"][0], p["multiplier"][0]):
                     tag = "D20"
+                elif e[0] != wr and not (-(1 << (e[0] - 1)) <= sgn(32, g) < (1 << (e[0] - 1))):
+                    tag = "DC18c"
+                elif not (-2**31 <= d < 2**31 and -2**31 <= ((d * m) >> (s - 1)) < 2**31):
+                    tag = "DC18b"
                 else:
-                    d = x - p["input_zp"]
-                    v = (d * m) >> (s - 1)
-                    tag = "DC18b" if not (-2**31 <= d < 2**31 and -2**31 <= v < 2**31) else None
+                    tag = None
                 if tag in seen:
                     continue
                 seen.add(tag)
-                out.append({"what": f"rescale {p} channel {ch}: input {x}: expansion gives {sgn(8, e)}, golden model {sgn(32, g)}",
-                            "finding": tag})
+                out.append({"what": f"rescale {p} (i{wi}) -> i{wr} channel {ch}: input {x}: expansion gives {sgn(e[0], e[1])} (i{e[0]}), "
+                                    f"golden model {sgn(32, g)}", "finding": tag})
             return out
         if k == "dispatch":
             out = []
             lc = impl_out["library_call"]
             if not impl_out["rest_unchanged"]:
                 out.append({"what": "dispatch-kernels changed more than the library_call", "finding": None})
-            if case["library_call"] or case["fused"]:
+            if case["library_call"] or case["fused"] or case.get("arith_first"):
                 if lc != case["library_call"]:
                     out.append({"what": f"library_call of an already dispatched / fused generic changed to {lc}", "finding": None})
                 return out
